@@ -610,3 +610,45 @@ def gen_focus_ttl(rng):
                     'upsert': False})
         ops.append(read())
     return ops
+
+
+def gen_focus_arrays(rng):
+    """Focused histories for the array operators: documents holding arrays with repeated and
+    adjacent equal elements (scalars and sub-documents), then $pull / $pullAll / $addToSet /
+    $push (with modifiers) / $pop on them, single and multi."""
+    pool = [1, 1, 2, 'a', 'a', None, 2.0, {'k': 1}, {'k': 1}, {'k': 2}]
+
+    def arr():
+        n = rng.choice([0, 1, 2, 3, 4, 5])
+        out = []
+        for _ in range(n):
+            if out and rng.random() < 0.45:
+                out.append(out[-1])           # adjacent duplicates
+            else:
+                out.append(rng.choice(pool))
+        return out
+    ops = [{'op': 'clock', 't': 0}]
+    for i in range(1, rng.choice([1, 2, 3]) + 1):
+        ops.append({'op': 'insert_one', 'doc': {'_id': i, 'l': arr(), 'm': {'l': arr()}, 'n': rng.choice([1, 2])}})
+    for _ in range(rng.choice([1, 2, 3])):
+        f = rng.choice(['l', 'l', 'm.l'])
+        v = rng.choice(pool)
+        r = rng.random()
+        if r < 0.3:
+            u = {'$pull': {f: v if rng.random() < 0.7 else {'$gte': 1}}}
+        elif r < 0.45:
+            u = {'$pullAll': {f: [v, rng.choice(pool)]}}
+        elif r < 0.6:
+            u = {'$addToSet': {f: v if rng.random() < 0.6 else {'$each': [v, rng.choice(pool), v]}}}
+        elif r < 0.85:
+            mods = {'$each': [rng.choice(pool) for _ in range(rng.choice([0, 1, 2]))]}
+            if rng.random() < 0.5:
+                mods['$position'] = rng.choice([0, 1, -1, 9])
+            if rng.random() < 0.5:
+                mods['$slice'] = rng.choice([0, 2, -2, 9])
+            u = {'$push': {f: mods if rng.random() < 0.7 else v}}
+        else:
+            u = {'$pop': {f: rng.choice([1, -1])}}
+        ops.append({'op': 'update', 'filter': rng.choice([{}, {'n': 1}, {'_id': 1}]), 'update': u,
+                    'multi': rng.random() < 0.5, 'upsert': False})
+    return ops
